@@ -81,6 +81,15 @@ gots = [tuple(sorted(e.parameters.items())) for e in seq]
 exps = [tuple(sorted({'detector.geometry.row': 3, 'detector.geometry.col': 4, k: v}.items())) for k, vs in (('detector.geometry.row', [3, 4, 5]), ('detector.geometry.col', [7, 8])) for v in vs]
 VIOLATED = got != exp or gots != exps
 DETAIL = 'product: ' + repr(got[:3]) + ' ... sequential: ' + repr(gots)
+if not VIOLATED:
+    # the same sweep with one list, then the other, then both given as expression text
+    for txt in ((0,), (1,), (0, 1)):
+        ps2 = [ParameterValues(key='detector.geometry.row', values='numpy.arange(3, 6)') if 0 in txt else ps[0],
+               ParameterValues(key='detector.geometry.col', values='numpy.arange(7, 9)') if 1 in txt else ps[1], ps[2]]
+        got2 = sorted((e.index, tuple(sorted(e.parameters.items())), e.run_index) for e in ProductMode(ps2).get_parameters_item())
+        if got2 != exp:
+            VIOLATED, DETAIL = True, f"with parameter(s) {txt} given as 'numpy.arange(..)' text the product has {len(got2)} entries (expected {len(exp)}): " + repr(got2[:4])
+            break
 """, "expect": "product = full Cartesian product of enabled lists; sequential = one parameter at a time over defaults"}
 
 
@@ -94,19 +103,36 @@ def product_enum(u: Unit):
     u.fn(f"{PV}::ParameterValues.__len__")
     u.fn("pyxel/evaluator.py::eval_range")
     mci = u.cls(f"{MISC}::ProductMode")
-    for shape in SHAPES:
+    # a parameter may also be declared as EXPRESSION TEXT ('numpy.arange(...)'): its values are the elements the expression
+    # evaluates to (eval is the boundary: an integer array with one symbolic element per value), not the characters of the text
+    TEXT = "numpy.arange(2, 8, 3)"                 # 21 characters, evaluates to 2 values
+    for shape, texts in [(sh, ()) for sh in SHAPES] + [((2,), (0,)), ((2, 3), (0,)), ((3, 2), (1,)), ((2, 2), (0, 1))]:
         holder = {}
+        cfg = Cfg("real")
 
-        def setup(ex, shape=shape):
-            pvs, vals, ens = mk_params(ex, u, shape)
+        def np_eval(ex, f, args, kwargs, fr):
+            if not (isinstance(args[0], VStr) and is_conc(args[0].v) and args[0].v == TEXT):
+                raise Unsupported(f"eval({args[0]!r})")
+            k = ex.st.ghost.get("evals", 0)
+            ex.st.ghost["evals"] = k + 1
+            return ex.st.alloc(HArr((2,), VDtype("int64"), lambda ix: VInt(z3.Function("expr_value", z3.IntSort(), z3.IntSort())(z_int(ix[0])))))
+        cfg.lib_overrides["builtins.eval"] = np_eval
+        cfg.lib_overrides["importlib.import_module"] = lambda ex, f, args, kwargs, fr: VLib(str(args[0].v))
+
+        def setup(ex, shape=shape, texts=texts):
+            multi = [((lambda ex: VStr(TEXT)) if j in texts else (lambda ex, j=j, L=L: ex.st.alloc(HList([VInt(z3.Int(f"v{j}_{i}")) for i in range(L)])))) for j, L in enumerate(shape)] if texts else None
+            pvs, vals, ens = mk_params(ex, u, shape, multi=multi)
+            for j in texts:
+                vals[j] = [VInt(z3.Function("expr_value", z3.IntSort(), z3.IntSort())(z3.IntVal(i))) for i in range(2)]
             holder.update(vals=vals, ens=ens)
             mode = ex.instantiate(mci, [], {"parameters": ex.st.alloc(HList(pvs))}, Frame(None, mci.module))
             return [mode], {}
-        ps = u.paths(fi, setup, Cfg("real"), label=f"ProductMode.get_parameters_item{shape}")
+        tagx = f"{shape}" + (f"[expression text at {list(texts)}]" if texts else "")
+        ps = u.paths(fi, setup, cfg, label=f"ProductMode.get_parameters_item{tagx}")
         n_paths = 0
         for p in ps:
             if p.kind != "return":
-                u.oblige(p, f"product.enumeration{shape}.no_raise", False, {"exc": p.exc_name()}, ENUM_REPLAY)
+                u.oblige(p, f"product.enumeration{tagx}.no_raise", False, {"exc": p.exc_name()}, ENUM_REPLAY)
                 continue
             n_paths += 1
             # which parameters are enabled on this path is decided by the path condition (all 2^P patterns explored)
@@ -115,7 +141,7 @@ def product_enum(u: Unit):
             assert s.check() == z3.sat
             m = s.model()
             enabled = [j for j, e in enumerate(holder["ens"]) if z3.is_true(m.eval(e, model_completion=True))]
-            u.oblige(p, f"product.enumeration{shape}.enabled_pattern_fixed", z3.And(*[(holder["ens"][j] if j in enabled else z3.Not(holder["ens"][j])) for j in range(len(shape))]), {}, ENUM_REPLAY)
+            u.oblige(p, f"product.enumeration{tagx}.enabled_pattern_fixed", z3.And(*[(holder["ens"][j] if j in enabled else z3.Not(holder["ens"][j])) for j in range(len(shape))]), {}, ENUM_REPLAY)
             entries = p.ex.try_list(p.value) or []
             space = list(itertools.product(*[range(shape[j]) for j in enabled]))
             ok = len(entries) == len(space)
@@ -130,8 +156,8 @@ def product_enum(u: Unit):
                 seen.add(idx)
                 for pos, j in enumerate(enabled):
                     ok = ok and same(prm.get(f"detector.geometry.k{j}"), holder["vals"][j][idx[pos]])
-            u.oblige(p, f"product.enumeration{shape}[enabled={enabled}]", bool(ok), {"shape": str(shape), "enabled": str(enabled)}, ENUM_REPLAY)
-        u.static(f"product.all_enabled_patterns{shape}", n_paths == 2 ** len(shape), fi.qualname, f"{n_paths} paths for {2 ** len(shape)} enabled patterns")
+            u.oblige(p, f"product.enumeration{tagx}[enabled={enabled}]", bool(ok), {"shape": str(shape), "enabled": str(enabled)}, ENUM_REPLAY)
+        u.static(f"product.all_enabled_patterns{tagx}", n_paths == 2 ** len(shape), fi.qualname, f"{n_paths} paths for {2 ** len(shape)} enabled patterns")
 
 
 @unit("C05", "sequential.enumeration")
